@@ -197,8 +197,6 @@ def dispatcher_filter(ctx: Ctx, exact: bool = False):
                 flow.dump(a[1].func).endswith(".get_requests")
             ctx.check(good, "D3", "GD.NODISP", "find_assignment's targets are " + ("" if exact else "(a sub-selection of) ") + "get_requests(filter_function=_valid_request)", solve, ev.raw,
                       why_bad=f"targets = {flow.dump(a[1])[:160] if len(a) > 1 else '?'}", construct="_solve_assignment:targets-filter")
-        if found:
-            break
     ctx.require(found, "_solve_assignment no longer calls find_assignment")
 
 
